@@ -539,7 +539,8 @@ pub fn run(opts: &Opts, out: &mut Emitter, c04: bool) {
             let mut q = if r.chance(2, 3) { base.clone() } else { random_query(&mut r, "x", &st, false) };
             q.name = match r.below(12) {
                 0 if i > 0 => qs_name(&qs, 0),
-                _ => format!("b{i}"),
+                // names on both sides of "collateral", which is resolved in name order with the others
+                _ => format!("{}{i}", r.pick(&["b", "b", "d", "p"])),
             };
             q.collateral = false;
             qs.push(q);
